@@ -43,7 +43,8 @@ def fault_class():
     if fl not in _FLAVOURS:
         import anytree
 
-        base = {"tree": anytree.TreeError, "loop": anytree.LoopError, "value": ValueError, "attr": AttributeError}[fl]
+        base = {"tree": anytree.TreeError, "loop": anytree.LoopError, "value": ValueError, "attr": AttributeError,
+                "assert": AssertionError, "recursion": RecursionError, "stopiter": StopIteration, "key": KeyError}[fl]
         _FLAVOURS[fl] = type("Injected_" + fl, (InjectedFault, base), {})
     return _FLAVOURS[fl]
 
@@ -101,6 +102,7 @@ KINDS = {
     "mixed": ("node", "anynode", "symlink", "mixin", "node"),
     "cross": ("mixin", "light"),
     "symmix": ("node", "node", "symlink>a", "symlink>c", "symlink>b"),
+    "symlight": ("light", "symlink>a", "light", "node"),  # a link whose target is a LightNodeMixin node, next to both mixins
     "named": ("named",),
     "named:light": ("named:light",),
 }
@@ -426,7 +428,7 @@ def execute(kind, n, witness, op, pre=None, raise_at=(), persist=None, snap=Fals
             _CALL_TIMEOUTS[0] += 1
         ex.outcome = "InjectedFault" if isinstance(exc, InjectedFault) else type(exc).__name__
         ex.exc = exc
-        ex.mro = tuple(c.__name__ for c in type(exc).__mro__)
+        ex.mro = () if isinstance(exc, InjectedFault) else tuple(c.__name__ for c in type(exc).__mro__)
     u.raise_at = frozenset()
     u.persist = None
     u.snapfn = None
